@@ -4,10 +4,8 @@ from harness.props import c01
 
 ID = 'C03'
 MODULE = 'Gpv.Props.C03'
-THEOREMS = [
-    'Gpv.C03.failure_prefix_then_exception', 'Gpv.C03.finished_after_failure', 'Gpv.C03.no_later_output',
-    'Gpv.C01.par_final', 'Gpv.C01.serial_final', 'Gpv.C01.serial_eq_parallel',
-]
+MODULES = ['Gpv.Props.C03', 'Gpv.Props.C01']
+THEOREMS = core.theorems('C03') + ['Gpv.C01.par_final', 'Gpv.C01.par_run_delivers', 'Gpv.C01.serial_final', 'Gpv.C01.serial_eq_parallel']
 RULE = ('every failure position k in 0..n x failure kind (function raises a picklable exception with args; element that cannot be '
         'sent; result that cannot be sent back; source raises after k elements) x window size x forced completion order (failing '
         'task first / last / random), plus the same table run in-process; the consumer must see the ordered prefix, then the same '
